@@ -91,6 +91,32 @@ func checkReplySinkGuards(c *report.Ctx) {
 		}
 	}
 	c.Check("R-COUNT", name+"/exits", "the reply sink's exits were enumerated", nex >= 6, fpos(s.f), nex, "%d exits", nex)
+	// the tests above and the marking below are one critical section: the sink never touches the server mutex
+	// itself (no window between "id matches, nothing sent yet" and "reply produced, marked sent"), and every
+	// caller enters it holding the mutex until it returns
+	nops := 0
+	for _, o := range an.LockOps(s.f) {
+		if strings.HasSuffix(o.Path, ".mutex") {
+			nops++
+		}
+	}
+	var unlocked []string
+	ncall := 0
+	for _, site := range callersIndex(c)[s.f] {
+		caller := site.Parent()
+		ncall++
+		held := an.NewHeld(caller)
+		ok := false
+		for pth := range held.At(site) {
+			if strings.HasSuffix(pth, ".mutex") && held.Defers[pth] {
+				ok = true
+			}
+		}
+		if !ok {
+			unlocked = append(unlocked, an.FuncName(caller))
+		}
+	}
+	c.Check("R-LOCK", name+"/one-critical-section", "the id test, the reply and the ReplySent mark happen under one uninterrupted hold of the server mutex (taken by the caller, released only when it returns)", nops == 0 && len(unlocked) == 0 && ncall >= 2, fpos(s.f), ncall+1, "lock operations on the server mutex inside the sink: %d; callers: %d, not holding it by defer: %v", nops, ncall, unlocked)
 	// reply-producing instructions are guarded by all three tests
 	prod := append(append([]ssa.CallInstruction{}, s.writes...), s.directs...)
 	c.Check("R-COUNT", name+"/reply-producers", "the reply is produced at one buffered write site and one direct-invoke site", len(s.writes) == 1 && len(s.directs) == 1, fpos(s.f), len(prod), "Write sites: %d, direct sites: %d", len(s.writes), len(s.directs))
